@@ -1,5 +1,6 @@
 """C01 — decided on the sequential tower model (see tools/tower_common.py, DESIGN.md section 5)."""
 import tower_common
+from props import c10
 
 TARGETS = ["theories/Properties/C01.v", "theories/Properties/C01_breach.v"]
 MON = {"C01"}
@@ -7,7 +8,10 @@ KNOWN = {"C101": {"kind": "late-appointment-truncated-cache"}}
 
 
 def run(ctx):
-    return tower_common.check(ctx, "C01", TARGETS, MON, KNOWN)
+    def extra(ctx):
+        # requests served while a block is being processed: the controlled-schedule exploration on the real tower
+        c10.conc_probe(ctx, "C01", {"unwatched"})
+    return tower_common.check(ctx, "C01", TARGETS, MON, KNOWN, extra_run=extra)
 
 
 def replay(ctx, path):
